@@ -17,8 +17,8 @@ META = {
     "trusted_base": ["vc/pysym incl. model of numpy reshape (row-major) and of the search-loop rule", "z3 / cvc5"],
     "assumptions": ["A1", "S = 3 species (structure), everything else symbolic",
                     "times non-decreasing (property quantifier); instances of monotonicity assumed at the indices used",
-                    "L-IVT (discrete intermediate value: t[a] <= q < t[b], a < b  =>  some window [k,k+1) contains q) is "
-                    "assumed as a Skolemised lemma instance for 'closest' (needs induction)"],
+                    "L-IVT (discrete intermediate value: t[a] <= q < t[b], a < b  =>  some window [k,k+1) contains q), used as a "
+                    "Skolemised lemma instance for 'closest', is proved in Lean 4 + Mathlib (lemmas/Ivt.lean, re-checked on every run)"],
 }
 S_ = 3
 TIME = M.dims_of("time")
@@ -169,7 +169,7 @@ def lookup_case(policy, query_form):
         if r is None:
             api.instantiate(j)
             if api.mode == "sym":
-                # L-IVT instance (discrete intermediate value, needs induction: assumed): if the query lies
+                # L-IVT instance (discrete intermediate value; proved in lemmas/Ivt.lean): if the query lies
                 # between the first and the last time there is a window [k, k+1) containing it
                 kk = api.index("ivt_k", N - 1) if api.truth(api.lt(1, N)) else 0
                 if policy == "supeq":
@@ -266,3 +266,7 @@ for _p in ("infeq", "supeq", "closest"):
         CASES.append(lookup_case(_p, _q))
 CASES.append(Case("finite/policy-empty-invalid", bad_policy_case, functions=["RDTrajectory.get_sample_index"],
                   sym=False))
+
+
+from vc.core.leanstep import lean_step as _lean_step
+EXTRA = [_lean_step("Ivt.lean", "C17", ["L_IVT", "L_IVT'"])]
